@@ -15,9 +15,11 @@ impl TryFrom<&[u8]> for RegisterRequest {
     type Error = TryFromSliceError;
 
     fn try_from(data: &[u8]) -> Result<Self, Self::Error> {
+        // two 32-byte values; anything else fails the conversions below instead of the slicing
+        let (challenge, application) = data.split_at(data.len().min(32));
         Ok(Self {
-            challenge: data[..32].try_into()?,
-            application: data[32..].try_into()?,
+            challenge: challenge.try_into()?,
+            application: application.try_into()?,
         })
     }
 }
